@@ -261,6 +261,15 @@ def run(model, col, tier):
         if ob.rule == "R15.4":
             ob.rule = "R04.6"
             col.obligations.append(ob)
+    # a swizzle read is `shuffle v, v`: both operand slots name the same value and both must follow a rewrite of that value (= R02.1 for the shuffle)
+    from . import c02 as _c02
+
+    sub = Collector("C02")
+    _c02.run(model, sub, "quick")
+    for ob in sub.obligations:
+        if ob.rule == "R02.1" and "ShuffleInstruction" in ob.construct:
+            ob.rule = "R04.2"
+            col.obligations.append(ob)
     # ---------------- R04.7 ------------------------------------------------------
     cp = vm.arm("CONSTRUCT_PRIMITIVE")
     s = " ".join(unparse(ast.Module(body=cp.body, type_ignores=[])).split())
